@@ -709,7 +709,7 @@ func (x *c04) regionRule(rule string, names []string) {
 				}
 			}
 			// number of iterations = cdiv12(size)
-			if bad == "" && !(lf.TripsOK && lf.Trips.String() == "cdiv12(size)") {
+			if bad == "" && !(lf.TripsOK && lf.Trips.equal(pCdiv(12, polyAtom("size")))) {
 				bad = "the number of pages mapped is not cdiv(size, 4096)"
 			}
 			lf.Done()
